@@ -294,6 +294,8 @@ def run_case(case):
 
     if case.get("aux"):
         return run_aux(case)
+    if case.get("realsock"):
+        return run_realsock(case)
     with LineSets() as ls:
         for kind, p in case["programs"]:
             results = {}
@@ -336,6 +338,38 @@ def run_case(case):
     cnt["sync_lines_executed"] = sum(len(s_) for s_ in cover_s.values())
     return {"viol": viol, "counters": cnt, "sigs": sorted(sigs), "sample": sample or None,
             "cover": {b: sorted(s_) for b, s_ in cover_a.items()}}
+
+
+def run_realsock(case):
+    """The hand-written pair of real back-ends (sync.py vs anyio.py / trio.py), which unasync does not generate: the
+    same loopback server behaviour must end in the same outcome class for all three."""
+    from .. import realsock
+    viol = []
+    cnt = {k: 0 for k in REQUIRED}
+    cnt["real_backend_comparisons"] = 0
+    sigs = set()
+    for b in case["behaviours"]:
+        want = realsock.EXPECT.get(b)
+        if not (want is None or (isinstance(want, tuple) and len(want) == 1)):
+            continue  # resets racing with reads/writes legitimately end in one of several classes, run by run
+        outs = {}
+        for be in ("sync", "anyio", "trio"):
+            res = realsock.run_one(be, b)
+            if res.get("outcome") == "n/a":
+                continue
+            exc = res.get("exc")
+            outs[be] = type(exc).__name__ if exc is not None else f"{res.get('outcome')}:{res.get('status')}"
+        if len(outs) < 2:
+            continue
+        cnt["real_backend_comparisons"] += 1
+        cnt["comparisons"] += len(outs) - 1
+        sigs.add(f"realsock|{b}|{outs.get('anyio')}")
+        ref = outs.get("anyio")
+        for be, o in outs.items():
+            if o != ref and not any(x["key"] == f"real-backend-outcome-differs:{b}:{be}" for x in viol):
+                viol.append({"key": f"real-backend-outcome-differs:{b}:{be}",
+                             "what": f"loopback server behaviour {b!r}: {outs}", "detail": {"behaviour": b, "outcomes": outs}})
+    return {"viol": viol, "counters": cnt, "sigs": sorted(sigs), "sample": None}
 
 
 def run_aux(case):
@@ -429,4 +463,6 @@ def plan(tier, seed):
     n_cases = 30
     cases = [{"programs": progs[i::n_cases], "seed": seed + i} for i in range(n_cases)]
     cases.append({"aux": True, "seed": 0})
+    from .. import realsock
+    cases.append({"realsock": True, "behaviours": list(realsock.BEHAVIOURS), "seed": 0})
     return cases
